@@ -324,7 +324,10 @@ func hash(outer, t types.Type, x value) int {
 func load(T types.Type, addr *value) value {
 	switch T := T.Underlying().(type) {
 	case *types.Struct:
-		v := (*addr).(structure)
+		v, ok := (*addr).(structure)
+		if !ok {
+			return *addr // an opaque model cell standing for a library struct (e.g. a BLS signature)
+		}
 		a := make(structure, len(v))
 		for i := range a {
 			a[i] = load(T.Field(i).Type(), &v[i])
@@ -346,8 +349,12 @@ func load(T types.Type, addr *value) value {
 func store(T types.Type, addr *value, v value) {
 	switch T := T.Underlying().(type) {
 	case *types.Struct:
-		lhs := (*addr).(structure)
-		rhs := v.(structure)
+		lhs, ok1 := (*addr).(structure)
+		rhs, ok2 := v.(structure)
+		if !ok1 || !ok2 {
+			*addr = v // opaque model cell (see load)
+			return
+		}
 		for i := range lhs {
 			store(T.Field(i).Type(), &lhs[i], rhs[i])
 		}
